@@ -1,10 +1,10 @@
 #!/bin/bash
-# ingest.sh Cxx — confirm the two changes an agent left in /tmp/wt/out-Cxx/{A,B}, keep them
+# ingest.sh Cxx — confirm the changes an agent left in /tmp/wt/out-Cxx/{A,B,C}, keep them
 # under the next free letters, remove the agent's worktree, run the matrix for them.
 p=$1
-for x in A B; do
+for x in A B C; do
   [ -f /tmp/wt/out-$p/$x/patch.diff ] || { echo "$p/$x: nothing delivered"; continue; }
-  for l in C D E F G H I J; do [ -d /verif/seeded/$p-$l ] || break; done
+  for l in C D E F G H I J K L M N; do [ -d /verif/seeded/$p-$l ] || break; done
   /verif/tools/verify_seed.sh /tmp/wt/out-$p/$x $p-$l 2>&1 | tail -1
   [ -d /verif/seeded/$p-$l ] && /verif/tools/matrix.sh $p-$l
 done
